@@ -7,6 +7,7 @@
 //!   fitwalk  (tolerance, max_n_iterations, n_runs, lower bounds of the chain of EM states rebuilt
 //!             step by step with the real e_step / m_step)  -> which state `fit` returns | which error
 //!   mstepfit (X, responsibilities of the accepted step, reg) -> the parameters `fit` returned
+//!   emstep   (parameters of the state before the accepted step, X, reg) -> the parameters `fit` returned
 //!   estep    (weights, means, precisions_chol, X)  -> log_prob_norm, log_resp      (hook)
 //!   mstep    (X, resp, reg)                        -> nk, weights, means, covariances | EmptyCluster (hook)
 //!   prec     precisions_chol                       -> precisions                    (hook)
@@ -280,7 +281,7 @@ fn oracle_params(ctx: &mut Ctx, tl: &Tol, class: &str, strict_pd: bool, x: &Arra
         // An eigenvalue within the resolution of this oracle (64 eps * largest entry) of zero means the returned covariance is singular to working precision.
         // (With a positive reg the requirement is `cov_pd` above: an eigenvalue ~reg is positive definite even where reg is
         // below the resolution of the scalar type, e.g. reg 1e-6 in f32.)
-        if strict_pd && (reg == 0.0 || lm < 0.5 * reg) && lm <= 64.0 * tl.eps * scale && lm >= -tl.pd_abs * scale {
+        if strict_pd && (reg == 0.0 || lm < 0.5 * reg - tl.pd_abs * scale) && lm <= 64.0 * tl.eps * scale && lm >= -tl.pd_abs * scale {
             ctx.fail("cov_pd_singular", class, format!("fit returned a covariance that is singular to working precision: component {} smallest eigenvalue {:e}, largest entry {:e}, reg {:e}; data {:?}", j, lm, scale, reg, if x.len() <= 36 { x.rows().into_iter().map(|r| r.to_vec()).collect::<Vec<_>>() } else { vec![] }));
         }
         if let Some(p) = prec {
@@ -575,10 +576,13 @@ struct Chain<F: Sc> {
     states: Vec<Gmm<F>>,
     log_resps: Vec<Array2<F>>,
     expected: Result<usize, String>,
+    /// a run that did not converge but beat every earlier run, after an earlier run had converged:
+    /// the configuration in which bookkeeping carried over from an earlier run would show
+    unconverged_after_converged: bool,
 }
 
 fn build_chain<F: Sc, D: Data<Elem = F>, T>(vp: &GmmValidParams<F, Xoshiro256Plus>, ds: &DatasetBase<ArrayBase<D, Ix2>, T>, cfg: &FitCfg) -> Chain<F> {
-    let mut ch = Chain { new_err: None, lbs: vec![], step_err: None, states: vec![], log_resps: vec![], expected: Err("NotConverged".to_string()) };
+    let mut ch = Chain { new_err: None, lbs: vec![], step_err: None, states: vec![], log_resps: vec![], expected: Err("NotConverged".to_string()), unconverged_after_converged: false };
     let mut g = match hk::new_model(vp, ds) {
         Ok(g) => g,
         Err(e) => {
@@ -593,6 +597,7 @@ fn build_chain<F: Sc, D: Data<Elem = F>, T>(vp: &GmmValidParams<F, Xoshiro256Plu
     let mut max_lb = F::neg_infinity();
     let mut best: Option<usize> = None;
     let mut best_iter: Option<u64> = None;
+    let mut some_run_converged = false;
     'runs: for _ in 0..cfg.runs {
         let mut lb = F::neg_infinity();
         let mut conv = None;
@@ -623,7 +628,11 @@ fn build_chain<F: Sc, D: Data<Elem = F>, T>(vp: &GmmValidParams<F, Xoshiro256Plu
             max_lb = lb;
             best = Some(ch.states.len() - 1);
             best_iter = conv;
+            if conv.is_none() && some_run_converged {
+                ch.unconverged_after_converged = true;
+            }
         }
+        some_run_converged |= conv.is_some();
     }
     ch.expected = match (&ch.step_err, best_iter, best) {
         (Some(e), _, _) => Err(e.clone()),
@@ -734,6 +743,15 @@ fn one_instance<F: Sc>(em: &mut Em, rng: &mut Rng, big: bool) {
         // the documented defaults, through params(k) alone
         cfg = FitCfg { k: cfg.k, init: GmmInitMethod::KMeans, reg: 1e-6, tol: 1e-3, runs: 1, iters: 100, seed: 42, pform: 3, dform: cfg.dform };
     }
+    if !rank_def && cfg.pform != 3 && rng.chance(1, 5) {
+        // "plateau" stream: the random initialiser starts EM on a plateau (all components alike), so with a loose
+        // tolerance the first run stops early and a later, short run moves on without converging
+        cfg.init = GmmInitMethod::Random;
+        cfg.tol = *rng.pick(&[1e-2, 3e-2, 1e-1]);
+        cfg.iters = *rng.pick(&[2, 3, 4, 5]);
+        cfg.runs = *rng.pick(&[2, 3]);
+        em.count(&format!("stream{}:plateau", F::TAG));
+    }
     // the values the f32 code sees
     cfg.reg = F::n(cfg.reg).w();
     cfg.tol = F::n(cfg.tol).w();
@@ -806,6 +824,9 @@ fn one_instance<F: Sc>(em: &mut Em, rng: &mut Rng, big: bool) {
         if let Some(e) = &ch.new_err {
             em.count(&format!("chain{}:init_error:{}", t, e));
         }
+        if ch.unconverged_after_converged {
+            em.count(&format!("chain{}:unconverged_run_beats_converged_run", t));
+        }
         match &ch.expected {
             Ok(_) => em.count(&format!("chain{}:accepted", t)),
             Err(e) => em.count(&format!("chain{}:expected_err:{}", t, e)),
@@ -864,6 +885,12 @@ fn one_instance<F: Sc>(em: &mut Em, rng: &mut Rng, big: bool) {
                 em.case_valid(op, &class, |_ctx| {
                     let (dg, cc) = diag_corr(&w3(g.covariances()), s * s);
                     format!("ok w={} mu={} covdiag={} covcorr={}", v1t(&w1(g.weights())), m2t(&(w2(g.means()) / s)), dg, cc)
+                });
+                // ... and one whole EM iteration (e_step then m_step) from the state before
+                let op = format!("emstep{} reg={} {} x={}", t, hex64(cfg.reg), params_str(&ch.states[i - 1]), m2(&xw));
+                em.case_valid(op, &class, |_ctx| {
+                    let (dg, cc) = diag_corr(&w3(g.covariances()), s * s);
+                    format!("ok w={} mu={} covdiag={} covcorr={} margin=~0000000000000000", v1t(&w1(g.weights())), m2t(&(w2(g.means()) / s)), dg, cc)
                 });
             }
         }
